@@ -7,6 +7,7 @@ import copy
 import json
 import math
 import os
+import sys
 import traceback
 from typing import Any, Dict, Iterator, List, Optional, Tuple
 
@@ -120,6 +121,8 @@ class PoolEngine(Engine):
                                   ("pipeline", 0 if real else float(cfg.get("pipeline_weight", 0.07)))])
         if workload == "pipeline":
             return self._gen_pipeline(rng)
+        if rng.random() < 0.08 and not real:
+            workload = "execute"
         cpus = weighted(rng, [(1, 1), (2, 2), (3, 2), (4, 2), (rng.randint(5, 16), 4)])
         max_n = int(cfg.get("max_n", 70))
         sizes = [0, 1, max(cpus - 1, 0), cpus, cpus + 1, 4 * cpus, 4 * cpus + 1, rng.randint(2, max_n)]
@@ -169,6 +172,19 @@ class PoolEngine(Engine):
                     task["stall"] = True
                 if rng.random() < 0.1 and task["extra"] and isinstance(task["extra"][0], list):
                     task["mutate_arg"] = True
+                tasks.append(task)
+        elif workload == "execute":
+            # parallel_execute: external commands (a fake Popen answers) whose return codes come back in order
+            scenario["verbose"] = rng.random() < 0.5
+            for i in range(min(n, 40)):
+                task = {"i": i, "rc": rng.choice([0, 0, 0, 1, 2, 137]), "stderr": rng.choice(["", "", "warning\n"]),
+                        "ms": duration(i)}
+                if "raise" in enabled and rng.random() < 0.1:
+                    task["raise"] = "OSError"
+                if "kill" in enabled and rng.random() < 0.1:
+                    task["kill"] = True
+                if "stall" in enabled and rng.random() < 0.1:
+                    task["stall"] = True
                 tasks.append(task)
         elif workload == "records":
             scenario["func"] = rng.choice(["sanitise", "identity", "touch"])
@@ -307,7 +323,7 @@ EXPECTED_PROBES = ["out_of_order_completion", "n_lt_k", "n_eq_k", "n_gt_4k", "ex
                    "unpicklable_result_fired", "unpicklable_task_fired", "cpus_from_config", "followup_ok",
                    "empty_batch", "preprocess_duplicate_ids", "records_with_sectioned_children", "real_pool_run",
                    "real_out_of_order_completion", "simpool_agrees_with_real_pool", "pipeline_multi_record",
-                   "pipeline_out_of_order_completion"]
+                   "pipeline_out_of_order_completion", "parallel_execute_batch"]
 
 _MODS: Dict[str, Any] = {}
 _ADDRESS = __import__("re").compile(r"0x[0-9a-fA-F]+")
@@ -414,6 +430,8 @@ class _Execution:
                 self._run_records()
             elif workload == "pipeline":
                 self._run_pipeline()
+            elif workload == "execute":
+                self._run_execute()
             else:
                 self._run_preprocess()
         except Exception as err:  # pylint: disable=broad-except
@@ -622,6 +640,66 @@ class _Execution:
                                                f"than in-process execution gives: {str(detail)[:600]} "
                                                f"(k={self.sc['cpus']}, func={self.sc.get('func')})")
                         break
+
+    # ---------- parallel_execute with a fake Popen
+    def _run_execute(self) -> None:
+        sc, res = self.sc, self.res
+        tasks = sc["tasks"]
+        k = int(sc["cpus"])
+        base = _MODS["base"]
+        by_index = {str(t["i"]): t for t in tasks}
+        self._size_probes(len(tasks), k)
+        res.probe("parallel_execute_batch")
+
+        class FakePopen:
+            def __init__(self, commands: List[str], **_kwargs: Any) -> None:
+                spec = by_index[commands[-1]]
+                if spec.get("raise"):
+                    raise OSError(f"cannot run {commands[0]}")
+                self.returncode = int(spec["rc"])
+                self._stderr = spec.get("stderr", "").encode()
+                sched = simpool.CURRENT
+                if sched is not None and not sched.in_worker:
+                    sched.now += float(spec["ms"]) / 1000.0
+
+            def communicate(self, input: Any = None, timeout: Any = None) -> Tuple[bytes, bytes]:  # pylint: disable=redefined-builtin
+                return b"", self._stderr
+
+            def kill(self) -> None:
+                return None
+
+            def __enter__(self) -> "FakePopen":
+                return self
+
+            def __exit__(self, *_args: Any) -> None:
+                return None
+        commands = [["simtool", "--flag", str(t["i"])] for t in tasks]
+        any_raise = any(t.get("raise") for t in tasks)
+        reference = [int(t["rc"]) for t in tasks]
+        sched = simpool.Schedule([self._schedule()])
+        simpool.install(sched)
+        start = sched.now
+        originals = (base.multiprocessing, base.Popen, base.os.setpgid)
+        base.multiprocessing = simpool.SHIM
+        base.Popen = FakePopen
+        stderr = sys.stderr
+        try:
+            base.os.setpgid = lambda *_args: None      # the harness process keeps its process group
+            sys.stderr = open(os.devnull, "w", encoding="utf-8")
+            value = base.parallel_execute([list(c) for c in commands], cpus=k, timeout=sc.get("timeout"),
+                                          verbose=bool(sc.get("verbose")))
+            outcome: Tuple[str, Any] = ("returned", value)
+        except simpool.SimHang:
+            outcome = ("hang", None)
+        except Exception as err:  # pylint: disable=broad-except
+            outcome = ("raised", type(err).__name__)
+            self.trace.append(["exception", type(err).__name__, _ADDRESS.sub("0x?", str(err))[:120]])
+        finally:
+            sys.stderr.close()
+            sys.stderr = stderr
+            base.multiprocessing, base.Popen, base.os.setpgid = originals
+        self._judge(outcome, sched.now - start, reference if not any_raise else None, bool(any_raise),
+                    lambda a, b: a == b)
 
     # ---------- whole pipeline at --cpus k (simulated pool inside the antiSMASH process) vs --cpus 1
     def _run_pipeline(self) -> None:
